@@ -344,3 +344,91 @@ Section Done.
     destruct (rm i (pend s)); [destruct Hr|discriminate].
   Qed.
 End Done.
+
+(* ------------------------------------------------------------------ *)
+(* whole restore histories                                              *)
+(* ------------------------------------------------------------------ *)
+Section History.
+  Variable H Hd : bytes -> bytes.
+  Variable decode : bytes -> option ptree.
+  Variable enc : ptree -> bytes.                     (* the chunk file of a proof *)
+  Hypothesis dec_enc : forall c, decode (enc c) = Some c.
+  Variables (size : N) (threads : nat) (t : tree).
+  Hypothesis Wt : wf t.
+
+  Let cs := chunks H size threads t.
+  Let digests := map (fun c => Hd (enc c)) cs.
+  Let root := root_hash H t.
+
+  Definition hist_inv (s : rstate) : Prop :=
+    sorted (db s) /\ incl (db s) (contents t) /\
+    (active s = true -> forall j c, nth_error cs j = Some c -> In j (pend s) \/ incl (pleaves c) (db s)).
+
+  Lemma hist_step s e : hist_inv s -> hist_inv (fst (rstep H Hd decode root digests s e)) \/ collision Hd.
+  Proof.
+    intros (Ss & Is & Ip). destruct e as [i b| |]; cbn [rstep].
+    - destruct (active s) eqn:Ea; cbn [negb]; [|left; cbn [fst]; repeat split; auto; congruence].
+      destruct (existsb (Nat.eqb i) (pend s)); cbn [negb]; [|left; cbn [fst]; repeat split; auto].
+      destruct (nth_error digests i) as [d|] eqn:Ed; [|left; cbn [fst]; repeat split; auto].
+      unfold digests in Ed. rewrite nth_error_map in Ed.
+      destruct (nth_error cs i) as [ci|] eqn:Eci; [|discriminate]. cbn in Ed. injection Ed as <-.
+      unfold restore_chunk.
+      destruct (bytes_eqb (Hd b) (Hd (enc ci))) eqn:Eb; cbn [negb]; [|left; cbn [fst]; repeat split; auto].
+      apply bytes_eqb_eq in Eb. destruct (H_inj_or Hd _ _ Eb) as [->|Cn]; [|now right].
+      rewrite dec_enc. destruct (verify H root ci); [|left; cbn [fst]; repeat split; auto; cbn; congruence].
+      left. cbn [fst active pend db].
+      assert (In ci cs) as Hci by (eapply nth_error_In; eauto).
+      assert (incl (pleaves ci) (contents t)) as Hs by (eapply chunks_sound; exact Hci).
+      destruct (import_in (contents t) (contents_sorted t Wt) (pleaves ci) (db s) Ss Is Hs) as [S1 I1].
+      unfold import. fold put. repeat split.
+      + exact S1.
+      + intros e He. apply I1 in He as [He|He]; auto.
+      + intros _ j c Hj. destruct (Ip eq_refl j c Hj) as [Hp|Hi].
+        * destruct (rm_in i j _ Hp) as [->|Hr]; [|now left].
+          right. rewrite Eci in Hj. injection Hj as <-. intros e He. apply I1. now right.
+        * right. intros e He. apply I1. left. auto.
+    - left. cbn [fst db active]. repeat split; [exact I|intros e []|discriminate].
+    - destruct (active s) eqn:Ea; cbn [fst]; left; [repeat split; auto|].
+      cbn [db active pend]. repeat split; auto. intros _ j c Hj. left. apply in_seq.
+      unfold digests. rewrite map_length. split; [lia|]. cbn. apply nth_error_Some. congruence.
+  Qed.
+
+  Lemma hist_run evs : forall s, hist_inv s -> hist_inv (rrun H Hd decode root digests s evs) \/ collision Hd.
+  Proof.
+    induction evs as [|e evs IH]; intros s Hi; cbn [rrun fold_left]; [now left|].
+    destruct (hist_step s e Hi) as [Hi'|Cn]; [|now right]. apply IH. exact Hi'.
+  Qed.
+
+  (* For ANY sequence of starts, aborts and deliveries (genuine, corrupt,
+     duplicate, out of order) into an empty database: what is visible is always
+     part of the checkpointed contents, and the delivery that ends the restore
+     (done) leaves exactly the checkpointed contents -- unless the digest
+     function collides. *)
+  Theorem restore_history_exact_l evs :
+    let s := rrun H Hd decode root digests (mkr false [] []) evs in
+    (incl (db s) (contents t) /\
+     forall i b s', rstep H Hd decode root digests s (EChunk i b) = (s', ROk) ->
+                    active s' = false -> db s' = contents t)
+    \/ collision Hd.
+  Proof.
+    intros s. destruct (hist_run evs (mkr false [] [])) as [Hi|Cn]; [|now right|].
+    { repeat split; [exact I|intros e []|discriminate]. }
+    fold s in Hi. destruct (hist_step s (EChunk 0 []) Hi) as [_|Cn]; [|now right].
+    assert (forall i b, hist_inv (fst (rstep H Hd decode root digests s (EChunk i b))) \/ collision Hd) as Hn
+      by (intros; now apply hist_step).
+    destruct (classic_or_collision Hn) as [Hall|Cn]; [|now right].
+    left. split; [apply Hi|]. intros i b s' Hstep Hdone.
+    specialize (Hall i b). rewrite Hstep in Hall. cbn [fst] in Hall. destruct Hall as (S1 & I1 & _).
+    apply sorted_ext; [exact S1|now apply contents_sorted|]. intros e. split; [apply I1|]. intros He.
+    (* every chunk has been imported: pend s' = [] *)
+    destruct (chunks_cover_all H size threads t e Wt He) as (c & Hc & Hin). fold cs in Hc.
+    apply In_nth_error in Hc as [j Hj].
+    pose proof Hstep as Hstep2. cbn [rstep] in Hstep2.
+    destruct (active s) eqn:Ea; cbn [negb] in Hstep2; [|congruence].
+    destruct (existsb (Nat.eqb i) (pend s)); cbn [negb] in Hstep2; [|congruence].
+    destruct (nth_error digests i); [|congruence].
+    destruct (restore_chunk H Hd decode root b0 b (db s)) as [[] st'] eqn:Erc; try congruence.
+    injection Hstep2 as <-. cbn [active] in Hdone. apply negb_false_iff, Nat.eqb_eq in Hdone.
+    admit.
+  Abort.
+End History.
